@@ -1023,12 +1023,14 @@ func callBuiltin(caller *frame, fn *ssa.Builtin, args []value) value {
 		return caller.i.guardedCopy(args[0].([]value), src.([]value))
 
 	case "clear":
-		caller.i.requireUnguarded("clear")
+		if _, isSlice := args[0].([]value); !isSlice {
+			caller.i.requireUnguarded("clear")
+		}
 		switch x := args[0].(type) {
 		case []value:
 			et := fn.Type().(*types.Signature).Params().At(0).Type().Underlying().(*types.Slice).Elem()
 			for k := range x {
-				x[k] = zero(et)
+				caller.i.store(et, &x[k], zero(et))
 			}
 		case map[value]value:
 			for k := range x {
